@@ -6,8 +6,7 @@ PARTIAL = [
     'reading PIL text (read_pil) and the release of a whole reader result after one gc pass are not part of the histories yet',
     'the theorems are about the abstract heap graph of the model; that CPython frees at reference count zero, that WeakValueDictionary callbacks fire and that no C-level or traceback reference survives is observed (weakref liveness after every step, gc disabled), not proved',
     'holding a caught error across later operations is exercised by the direct oracle only (the model has no exception roots)',
-    'release_redefine_full (Proofs/RegExamples.v): drop of the last reference followed by a redefinition with other parameters as one statement about operations; proved: C05_release, C05_redefine_after_release, Example ex_release',
-    'split() is exercised on the implementation by the oracle (results dropped, liveness re-checked); the model has no Split operation',
+    "release followed by redefinition as one statement about operations is proved for domains whose name has an unstarred, non-empty base (C05_release_redefine); the unguarded statement is refuted (C05_release_redefine_refuted_for_double_star: a=DomainS('a',5); x=DomainS('a**',5); del x; DomainS('a**',7) is refused, replayed on the implementation); for the other four classes: C05_release + C05_redefine_after_release + Example ex_release",
 ]
 
 
